@@ -255,6 +255,15 @@ class MultiVectors(Stream):
                 return Failure("bool-coeffwise", f"bool({a!r})", pl)
             if (a == b) and hash(a) != hash(b):
                 return Failure("hash", "equal multivectors hash differently", pl)
+        # results of the products themselves compare / test coefficient-wise
+        from pymbolic.geometric_algebra import MultiVector
+        for nm, r in (("geometric", a * b), ("outer", a ^ b), ("inner", a | b), ("sum", a + b)):
+            clean = MultiVector(dict(coeffs(r)), sp)
+            if bool(r) != bool(coeffs(r)):
+                return Failure("result-bool-coeffwise", f"bool({nm} product {r!r}) = {bool(r)}", pl)
+            if not (r == clean) or (hash(r) != hash(clean)):
+                return Failure("result-eq-coeffwise", f"{nm} product {r!r} != its non-zero "
+                               f"coefficients {clean!r} (or hashes differ)", pl)
         # inverse of a non-null blade
         if len(coeffs(a)) == 1 and pruned(a):
             try:
